@@ -85,7 +85,11 @@ class NdE:
         self.data = list(data)  # flat, row-major
 
     def copy(self):
-        return NdE(self.shape, self.data)
+        c = NdE(self.shape, self.data)
+        for k in ("dtype", "shared"):  # optional marks set by the numpy model (forced object dtype, view of a buffer)
+            if k in self.__dict__:
+                setattr(c, k, self.__dict__[k])
+        return c
 
 
 class SymListE:
